@@ -546,11 +546,11 @@ theorem post_openOK {F0 G : FS} {S i v : Nat} {X fS : Bytes} (h : PostState F0 G
 /-- what the directory must look like before defrag starts -/
 structure DefragReady (db : DB) : Prop where
   cached : Cached db
-  wf : IndexWF eg db.index
+  wf : IndexWF db.eager db.index
   free : checkIdxFile (idxFile db.fs (1 - db.datIdx)) = none
   old : OldParts db.fs (1 - db.datIdx) db.verSeq
   verlt : db.verSeq < 2^32
-  readable : DirReadable eg db.fs
+  readable : DirReadable db.eager db.fs
   seqs : ∀ kr ∈ diskIndex db.fs, kr.2.seq ≠ u32 (db.dataSeq + 1)
   logfits : ∃ E, (∀ e ∈ E, EntryFits e) ∧ LogState db.fs db.verSeq E
   ver : snapVer db.fs = db.verSeq
@@ -561,7 +561,7 @@ structure DefragReady (db : DB) : Prop where
     in-memory value. -/
 theorem defrag_prefix (db : DB) (hr : DefragReady db) :
     ∃ es, (defrag db).effs = db.effs ++ es ∧
-      ∀ n, OpenOK eg (db.fs.applyAll ((es.map (·.2)).take n)) ∧
+      ∀ n, OpenOK db.eager (db.fs.applyAll ((es.map (·.2)).take n)) ∧
         ((∀ k, diskValue (db.fs.applyAll ((es.map (·.2)).take n)) k = diskValue db.fs k) ∨
          (∀ k, diskValue (db.fs.applyAll ((es.map (·.2)).take n)) k = (ilookup k db.index).map valOf)) := by
   obtain ⟨A, B, hsh, hA, hB⟩ := defrag_effs_shape db hr.cached hr.small
@@ -635,7 +635,7 @@ theorem defrag_prefix (db : DB) (hr : DefragReady db) :
       rw [hm, List.take_succ_cons]
       simp
     rw [ht, applyAll_append]
-    show OpenOK eg (Gc.applyAll (B'.take (n - A'.length - 1))) ∧ _
+    show OpenOK db.eager (Gc.applyAll (B'.take (n - A'.length - 1))) ∧ _
     have hpost := hpostc.applyAll (B'.take (n - A'.length - 1)) (fun e he => hB' e (List.mem_of_mem_take he))
     have := post_content db.index hr.wf (u32_lt _) hpost hr.old hr.verlt
     exact ⟨post_openOK hpost hr.old hr.verlt (checkIdxFile_snapBytes _ _ (u32_lt _)) this.1, Or.inr this.2⟩
